@@ -124,7 +124,14 @@ def correspond(ctx: Ctx):
             for pl in list(g)[:3]:
                 bits = rng.getrandbits(rng.choice([3, 8, 71]))
                 l1 = [(int(i), int(p)) for i, p in pl]
-                add(f"c07rec {enc_label(l1)} | {bits}", safe(lambda: int(bitwise_pauli_reconstructor_factory(pl)(bits))), "rec", (l1, bits))
+                rv = safe(lambda: int(bitwise_pauli_reconstructor_factory(pl)(bits)))
+                add(f"c07rec {enc_label(l1)} | {bits}", rv, "rec", (l1, bits))
+                # the property on the real code alone (any register width): after the per-qubit basis change the Pauli is
+                # Z on its support, so its eigenvalue on outcome b is (-1)^{number of support qubits measured as 1}
+                spec = -1 if sum((bits >> q) & 1 for q, _ in l1) % 2 else 1
+                if rv != ("ok", spec):
+                    ctx.witness("reconstructor", f"reconstructor of {l1} on outcome bits {bits} gives {rv[1]}, the eigenvalue is {spec}",
+                                {"label": l1, "bits": bits})
         # arbitrary (possibly non-commuting) sets for the circuit generator
         if labs:
             sub = rng.sample(plabs, min(len(plabs), rng.randint(1, 3)))
